@@ -30,7 +30,7 @@ RULE = (
     "all programs over {S,R0,R1,R2,X,D}: one thread x length<=3 (quick: <=2 plus selected 3), two threads x length<=2 (thorough) / selected pairs (quick); x exit_if_empty in {False,True}; "
     "each explored over all schedules within (PB,TB); non-trivial = >=1 context switch between a scheduling thread and the loop thread; distinct = (harness, schedule)"
 )
-BUDGET = {"quick": 300.0, "thorough": 3000.0}
+BUDGET = {"quick": 500.0, "thorough": 3000.0}
 
 OPS = ("S", "R0", "R1", "R2", "X", "D")
 
@@ -245,6 +245,13 @@ def harnesses(tier):
             hs.append(H(eie, (p,)))
         for a, b in two:
             hs.append(H(eie, (a, b)))
+    # coarse mode (switching only at line boundaries of eventloopscheduler.py and where threads block/start/end) makes PB 2
+    # affordable in every run: a loop thread that decided to exit, racing two further schedule() calls
+    for progs_ in ((("S", "S"), ("S",)), (("S", "R1", "S"),)):
+        h = H(True, progs_)
+        h.pb, h.lines_only, h.sync_log = 2, True, False
+        h.name += "|PB2-lines-only"
+        hs.append(h)
     return hs
 
 
@@ -262,7 +269,7 @@ def shard(part, shard_i, nshards, tier, seed, deadline, dots=None):
     for i, h in enumerate(hs):
         if (i + seed) % nshards == shard_i:
             h.part = part
-            ilvrun.explore_all(part, [h], 0, 1, PB, TB, deadline, horizon=10.0)
+            ilvrun.explore_all(part, [h], 0, 1, getattr(h, "pb", PB), TB, deadline, horizon=10.0)
     for eie, g in GRAPHS.items():
         for e in g.used:
             part.counters["tla_edge:%s:%x" % (eie, core.h64(e))] = 1
